@@ -26,6 +26,7 @@ member list sorted lexicographically by the depth-first list of decisions.
 This module is also imported by c12_dna_views.py (model, builders, oracles).
 """
 import itertools
+import os
 import random as _random
 import time
 
@@ -700,8 +701,254 @@ def small_trees(values, max_nodes=3):
 
 
 # =============================================================================
-# Drivers
+# Single-point (size 1) but non-empty sub-spaces
 # =============================================================================
+# A candidate sub-space may contain decision points and still have exactly one
+# point.  Its DNA is NOT the DNA of a constant candidate: the (forced)
+# decisions are spelled out, e.g. oneof([constant, space([oneof([c])])]) has
+# the members 0 and 1 -> (0), never a bare 1.
+S1 = SP(leaf(1))                                   # oneof([c])
+S1M = SP(leaf(2, 2, True, True))                   # choose 2 of 2, sorted
+S1R = SP(leaf(1, 2, False, False))                 # choose 2 of 1, repeats
+S11 = SP(leaf(1), leaf(1))                         # two forced elements
+S1N = SP(ONE([S1]))                                # forced, nested
+S1K = SP(leaf(3, 3, True, True))                   # choose 3 of 3, sorted
+SINGLE_POINT = [S1, S1M, S1R, S11, S1N, S1K]
+
+
+def single_point_roots():
+  """Specs whose candidates include non-empty sub-spaces of size 1."""
+  l2 = leaf(2)
+  return [
+      SP(ONE([C, S1])),
+      SP(ONE([S1M, C]), l2),
+      SP(l2, ONE([S1R, S2])),
+      SP(ONE([S11, C])),
+      SP(ONE([S1N, S1, C])),
+      SP(ONE([C, S1K])),
+      SP(ONE([SP(ONE([C, S1M])), S1])),
+      SP(CH(2, [S1, C, S1M], True, False)),
+      SP(CH(2, [S1M, S2], False, True)),
+      SP(CH(2, [S11, C], True, True), l2),
+      SP(CH(3, [S1R, C], False, True)),
+      SP(S1[1][0], l2), SP(l2, S1M[1][0]),          # forced root elements
+      # bare decision points / single-point roots
+      ONE([S1]), ONE([S1M, S1]), CH(2, [S11, S1], False, False),
+      SP(ONE([S1])), SP(leaf(2, 2, True, True)), SP(leaf(1), leaf(1)),
+  ]
+
+
+# =============================================================================
+# In-place edits of a specification
+# =============================================================================
+# A DNASpec is a mutable symbolic object.  After an edit the object is again a
+# finite search-space specification and everything the statement says must hold
+# for the edited object (reported size, iteration, validation, ...).
+
+
+def model_nodes(m, path=()):
+  yield path, m
+  if m[0] == 'space':
+    for i, e in enumerate(m[1]):
+      yield from model_nodes(e, path + (('e', i),))
+  elif m[0] == 'choices':
+    for j, c in enumerate(m[2]):
+      yield from model_nodes(c, path + (('c', j),))
+
+
+def model_put(m, path, new):
+  if not path:
+    return new
+  (t, i), rest = path[0], path[1:]
+  if t == 'e':
+    el = list(m[1])
+    el[i] = model_put(el[i], rest, new)
+    return ('space', tuple(el))
+  cands = list(m[2])
+  cands[i] = model_put(cands[i], rest, new)
+  return m[:2] + (tuple(cands),) + m[3:]
+
+
+def path_attr(path):
+  return '.'.join(('elements[%d]' if t == 'e' else 'candidates[%d]') % i
+                  for t, i in path)
+
+
+def node_pairs(m, obj, attr=''):
+  """(sub-model, live node, attribute path text) of every Space/Choices node."""
+  yield m, obj, attr
+  if m[0] == 'space':
+    for i, e in enumerate(m[1]):
+      yield from node_pairs(e, obj.elements[i], f'{attr}.elements[{i}]')
+  elif m[0] == 'choices':
+    for j, c in enumerate(m[2]):
+      yield from node_pairs(c, obj.candidates[j], f'{attr}.candidates[{j}]')
+
+
+CAND_MENU = [C, S2, S1, S1M, SM, S11, SN]
+ELEM_MENU = [leaf(2), leaf(1), leaf(3, 2, True, True), leaf(2, 2, True, True),
+             ONE([C, S2])]
+EDIT_KINDS = ['num_choices', 'distinct', 'sorted', 'flags',
+              'append-candidate', 'insert-candidate', 'remove-candidate',
+              'replace-candidate', 'append-element', 'insert-element',
+              'remove-element', 'replace-element']
+EDIT_GROUP = {'num_choices': 'choice-flags', 'distinct': 'choice-flags',
+              'sorted': 'choice-flags', 'flags': 'choice-flags',
+              'append-candidate': 'candidates', 'insert-candidate': 'candidates',
+              'remove-candidate': 'candidates', 'replace-candidate': 'candidates',
+              'append-element': 'elements', 'insert-element': 'elements',
+              'remove-element': 'elements', 'replace-element': 'elements'}
+
+
+def _list_edits(obj, attr, field, n, items, render):
+  """(kind stem, index/None, new item/None, [statement alternatives])."""
+  lst = f'{obj}.{field}'
+  key = f'{attr}.{field}' if attr else field
+  out = []
+  for it in items:
+    out.append(('append', n, it, [
+        f'{lst}.append({render(it, n)})',
+        f"spec.rebind({{'{key}[{n}]': {render(it, n)}}})"]))
+    out.append(('insert', 0, it, [f'{lst}.insert(0, {render(it, n)})']))
+    for j in range(n):
+      out.append(('replace', j, it, [
+          f'{lst}[{j}] = {render(it, j)}',
+          f"spec.rebind({{'{key}[{j}]': {render(it, j)}}})"]))
+  for j in range(n):
+    out.append(('remove', j, None, [f'del {lst}[{j}]', f'{lst}.pop({j})']))
+  return out
+
+
+def model_edits(m):
+  """Every single in-place edit of model m.
+
+  Returns (kind, new model, [python statements that perform the edit on the
+  variable `spec`; alternatives: on the node itself / through the root]).
+  """
+  out = []
+  for path, sub in model_nodes(m):
+    attr = path_attr(path)
+    obj = 'spec' + ('.' + attr if attr else '')
+    if sub[0] == 'choices':
+      _, k, cands, distinct, srt, name, lits = sub
+      n = len(cands)
+      for k2 in (1, 2, 3):
+        for d2, s2 in FLAGS:
+          ch = {}
+          if k2 != k:
+            ch['num_choices'] = k2
+          if d2 != distinct:
+            ch['distinct'] = d2
+          if s2 != srt:
+            ch['sorted'] = s2
+          if not ch or (d2 and k2 > n):
+            continue
+          kind = list(ch)[0] if len(ch) == 1 else 'flags'
+          kw = ', '.join(f'{a}={v!r}' for a, v in ch.items())
+          stmts = [f'{obj}.rebind({kw})']
+          if attr:
+            stmts.append('spec.rebind({' + ', '.join(
+                f"'{attr}.{a}': {v!r}" for a, v in ch.items()) + '})')
+          out.append((kind, model_put(m, path, CH(k2, cands, d2, s2, name, lits)),
+                      stmts))
+      if lits is not None:
+        continue
+      for stem, j, it, stmts in _list_edits(
+          obj, attr, 'candidates', n, CAND_MENU, lambda c, _: src(c)):
+        if stem == 'append':
+          new = cands + (it,)
+        elif stem == 'insert':
+          new = (it,) + cands
+        elif stem == 'replace':
+          if it == cands[j]:
+            continue
+          new = cands[:j] + (it,) + cands[j + 1:]
+        else:
+          new = cands[:j] + cands[j + 1:]
+          if not new or (distinct and k > len(new)):
+            continue
+        out.append((stem + '-candidate',
+                    model_put(m, path, CH(k, new, distinct, srt, name, lits)),
+                    stmts))
+    elif sub[0] == 'space':
+      el = sub[1]
+      for stem, j, it, stmts in _list_edits(
+          obj, attr, 'elements', len(el), ELEM_MENU,
+          lambda e, i: src(e, LOCS[min(i, len(LOCS) - 1)])):
+        if stem == 'append':
+          new = el + (it,)
+        elif stem == 'insert':
+          new = (it,) + el
+        elif stem == 'replace':
+          if it == el[j]:
+            continue
+          new = el[:j] + (it,) + el[j + 1:]
+        else:
+          new = el[:j] + el[j + 1:]
+        out.append((stem + '-element', model_put(m, path, SP(*new)), stmts))
+  return out
+
+
+WARM = (
+    'import itertools as I, random\n'
+    'def _walk(s):\n'
+    '  yield s\n'
+    '  for x in (s.elements if s.is_space else s.candidates): yield from _walk(x)\n'
+    'def _use(s):\n'
+    '  [x.space_size for x in _walk(s)]; s.random_dna(random.Random(0))\n'
+    '  [s.validate(d) for d in I.islice(s.iter_dna(), 30)]\n')
+
+
+# =============================================================================
+# Checks of one live spec object against a model
+# =============================================================================
+# Non-members that the library is already known to accept (listed in
+# known_findings.json under the un-prefixed ids); not probed again on edited
+# specs.
+KNOWN_ACCEPTED = {('validate', 'value-on-multi-choice-container'),
+                  ('validate', 'value-on-space-container'),
+                  ('bind', 'float-with-children')}
+
+
+class Cx:
+  """One live spec object under check and the model it must behave as.
+
+  `setup` is the source text that leaves the object in the variable `spec`
+  (default: built from the model); `pre` replaces the per-class suffix of the
+  case ids by a prefix that names the way the object was obtained.
+  """
+
+  def __init__(self, rec, m, r, tier, spec=None, setup=None, label=None,
+               pre=''):
+    self.rec, self.m, self.r, self.tier = rec, m, r, tier
+    self.spec = build(m) if spec is None else spec
+    self.setup = setup
+    self.label = src(m) if label is None else label
+    self.pre = pre
+    self._mem = None
+
+  @property
+  def mem(self):
+    if self._mem is None:
+      self._mem = members(self.m)
+      _self_check(self.m, self._mem)
+    return self._mem
+
+  def wit(self, body):
+    if self.setup is None:
+      return wit(self.m, body)
+    return self.setup + body
+
+  def cid(self, base, cls=None):
+    if self.pre:
+      return f'{self.pre}/{base}'
+    return base if cls is None else f'{base}/{cls}'
+
+  def case(self, base, cls, key, ok, message, body):
+    extra = () if key is None else (key,)
+    return self.rec.case(self.cid(base, cls),
+                         self.label if key is None else (self.label,) + extra,
+                         ok, message, self.wit(body))
 
 
 def _self_check(m, mem):
@@ -717,6 +964,8 @@ def _self_check(m, mem):
   for a, b in zip(fl, fl[1:]):
     if not a < b:
       raise AssertionError(f'harness: member order not strict for {src(m)}')
+  if is_finite(m) and count_members(m) != len(mem):
+    raise AssertionError(f'harness: count_members != len(members) for {src(m)}')
   return keys
 
 
@@ -743,10 +992,28 @@ def _multi_class(m):
   return acc.pop() + '/' + cond
 
 
+def _size_checks(cx, nested=True):
+  """Reported size of the root (and of every nested node) vs the member count."""
+  cls = _multi_class(cx.m) if is_finite(cx.m) else 'infinite'
+  for sm, obj, attr in node_pairs(cx.m, cx.spec):
+    if sm[0] not in ('space', 'choices'):
+      continue
+    want = count_members(sm) if is_finite(sm) else -1
+    got = obj.space_size
+    if not attr:
+      cx.case('space_size', cls, None, got == want,
+              f'space_size={got}, brute-force count={want}',
+              f'assert spec.space_size == {want}, spec.space_size')
+    elif nested:
+      cx.case('space_size-of-nested-node', cls, attr, got == want,
+              f'spec{attr}.space_size={got}, brute-force count={want}',
+              f'assert spec{attr}.space_size == {want}, spec{attr}.space_size')
+
+
 def drv_space_size(tier, seed):
   """space_size == number of members, over an exhaustive family of specs."""
   if tier == 'quick':
-    w_all, w_rand, nmax, budget = 3, 5, 3, 120
+    w_all, w_rand, nmax, budget = 3, 5, 3, 100
   else:
     w_all, w_rand, nmax, budget = 4, 5, 4, 800
   rec = Recorder(PROP, 'space_size equals the brute-force member count',
@@ -823,6 +1090,133 @@ def _iteration_specs(tier, r):
   return specs
 
 
+def _iter_checks(cx, full_cap, light=False):
+  """iter_dna / next_dna of cx.spec vs the sorted brute-force members."""
+  m, spec, r, tier = cx.m, cx.spec, cx.r, cx.tier
+  mem = cx.mem
+  cls = _multi_class(m) if is_finite(m) else 'custom-next_dna_fn'
+  n = len(mem)
+  if n <= full_cap:
+    # --- full iteration with library-produced DNAs fed back --------------
+    try:
+      got = []
+      for d in spec.iter_dna():
+        got.append(d)
+        if len(got) > n + 3:
+          break
+    except Exception as e:  # pylint: disable=broad-except
+      cx.case('iter/raises', cls, None, False,
+              f'iter_dna raised {type(e).__name__}: {e}',
+              'list(spec.iter_dna())')
+      return
+    gs = [shape(d) for d in got]
+    if is_finite(m):
+      cx.case('iter/count-vs-space_size', cls, None,
+              len(got) == spec.space_size,
+              f'{len(got)} DNAs iterated, space_size={spec.space_size}',
+              'assert len(list(spec.iter_dna())) == spec.space_size')
+    ok = [tkey(x) for x in gs] == [tkey(x) for x in mem]
+    msg = ''
+    if not ok:
+      gk = [tkey(x) for x in gs]
+      mk_ = [tkey(x) for x in mem]
+      missing = [x for x in mem if tkey(x) not in set(gk)]
+      extra = [x for x in gs if tkey(x) not in set(mk_)]
+      msg = (f'iterated {len(gs)} vs {n} members; missing={missing[:3]!r} '
+             f'extra={extra[:3]!r}; got flat={[flat(x) for x in gs][:12]!r}')
+    cx.case('iter/sequence', cls, None, ok, msg, (
+        f'want = {[flat(x) for x in mem]!r}\n'
+        'got = [d.to_numbers() for d in spec.iter_dna()]\n'
+        'assert got == want, got'))
+    # ordering by the library's own comparison operators
+    bad = None
+    for i in range(len(got) - 1):
+      a, b = got[i], got[i + 1]
+      if not (a < b) or (b < a) or a == b or not (a != b):
+        bad = (i, gs[i], gs[i + 1])
+        break
+    cx.case('iter/strictly-increasing', cls, None, bad is None,
+            f'consecutive DNAs not strictly increasing: {bad!r}', (
+                'l = list(spec.iter_dna())\n'
+                'assert all(a < b and not b < a and a != b '
+                'for a, b in zip(l, l[1:]))'))
+    if got:
+      dup = len(set(got)) != len(got)
+      cx.case('iter/pairwise-different', cls, None, not dup,
+              'hash/eq based set of iterated DNAs is smaller than the list',
+              'l = list(spec.iter_dna()); assert len(set(l)) == len(l)')
+      last_next = got[-1].next_dna() if len(got) == n else 'n/a'
+      cx.case('iter/last-has-no-successor', cls, None,
+              last_next is None or last_next == 'n/a',
+              f'next_dna(last) = {last_next!r}',
+              'l = list(spec.iter_dna()); assert l[-1].next_dna() is None')
+      unbound = [d for d in got if d.spec is None]
+      cx.case('iter/attached-spec', cls, None, not unbound,
+              f'{len(unbound)} iterated DNAs have no spec attached',
+              'assert all(d.spec is not None for d in spec.iter_dna())')
+      # validation accepts exactly the members, and every iterated DNA has to
+      # be one: the library's own DNAs are fed back to validate()
+      refused = None
+      for d in got[:24]:
+        if accepts(m, shape(d)):
+          rej, text = raises(lambda: spec.validate(d))  # pylint: disable=cell-var-from-loop
+          if rej and refused is None:
+            refused = (shape(d), text)
+      cx.case('iter/validate-accepts-iterated', cls, None, refused is None,
+              f'validate() refuses the iterated DNA {refused!r}',
+              'for d in spec.iter_dna():\n  spec.validate(d)')
+    idx = list(range(n)) if n <= 6 else sorted(set(
+        [0, n - 1] + r.sample(range(n), 2 if tier == 'quick' else 4)))
+    if light:
+      idx = sorted(set([0, n - 1] + ([r.randrange(n)] if n else [])))
+    # iteration resumed after a given (unbound) member, exclusive
+    if 2 <= n <= (16 if tier == 'quick' else 10**9) and not (light and n > 8):
+      i = r.randrange(n - 1)
+      try:
+        tail = [shape(d) for d in itertools.islice(
+            spec.iter_dna(mk(mem[i])), n + 2)]
+        tail2 = [shape(d) for d in itertools.islice(
+            mk(mem[i]).use_spec(spec).iter_dna(), n + 2)]
+        ok = ([tkey(x) for x in tail] == [tkey(x) for x in mem[i + 1:]]
+              and [tkey(x) for x in tail2] == [tkey(x) for x in mem[i + 1:]])
+        msg = (f'iter_dna({mem[i]!r}) gave {[flat(x) for x in tail]!r} / '
+               f'{[flat(x) for x in tail2]!r}, want '
+               f'{[flat(x) for x in mem[i + 1:]]!r}')
+      except Exception as e:  # pylint: disable=broad-except
+        ok, msg = False, f'iter_dna({mem[i]!r}) raised {type(e).__name__}: {e}'
+      cx.case('iter/resume-after', cls, i, ok, msg, (
+          f'want = {[flat(x) for x in mem[i + 1:]]!r}\n'
+          f'got = [d.to_numbers() for d in spec.iter_dna({dsrc(mem[i])})]\n'
+          f'got2 = [d.to_numbers() for d in {dsrc(mem[i])}.use_spec(spec).iter_dna()]\n'
+          'assert got == want and got2 == want, (got, got2)'))
+  else:
+    idx = sorted(set([0, 1, n - 1, n - 2] + r.sample(range(n), 8)
+                     + _boundary_indices(mem, 6, r)))
+    f = spec.first_dna()
+    cx.case('iter/first', cls, None, tkey(shape(f)) == tkey(mem[0]),
+            f'first_dna={shape(f)!r}, want {mem[0]!r}',
+            f'assert spec.first_dna() == {dsrc(mem[0])}')
+  # --- successor of freshly built (unbound) members ----------------------
+  for i in idx:
+    want = mem[i + 1] if i + 1 < n else None
+    start = mk(mem[i])
+    try:
+      nx = spec.next_dna(start, attach_spec=bool(i % 2))
+      got1 = None if nx is None else shape(nx)
+    except Exception as e:  # pylint: disable=broad-except
+      got1 = f'raised {type(e).__name__}: {e}'[:150]
+    ok = (got1 is None and want is None) or (
+        isinstance(got1, tuple) and want is not None
+        and tkey(got1) == tkey(want))
+    cid = 'next/successor' if want is not None else 'next/last-is-none'
+    cx.case(cid, cls, i, ok,
+            f'next_dna({mem[i]!r}) = {got1!r}, want {want!r}', (
+                f'nx = spec.next_dna({dsrc(mem[i])})\n' + (
+                    'assert nx is None, nx' if want is None else
+                    f'assert nx is not None and nx.to_numbers() == {flat(want)!r} '
+                    f'and nx == {dsrc(want)}, nx')))
+
+
 def drv_iteration(tier, seed):
   """iter_dna == sorted brute-force members; order; no successor."""
   full_cap = 40 if tier == 'quick' else 260
@@ -834,7 +1228,8 @@ def drv_iteration(tier, seed):
              '; multi-element roots; depth<=3; 5 specs whose custom points are '
              'enumerated by a user next_dna_fn (quick: seeded samples of the '
              'conditional families); full iteration when size<='
-             f'{full_cap}, otherwise successor checks at first/last/boundary '
+             f'{full_cap} (every iterated DNA is fed back to validate), '
+             'otherwise successor checks at first/last/boundary '
              'and seeded random members'))
   r = rng(seed, 'c11.iter')
   budget_s = 36 if tier == 'quick' else 520
@@ -842,117 +1237,7 @@ def drv_iteration(tier, seed):
   for m in _iteration_specs(tier, r):
     if time.time() - t0 > budget_s:
       break
-    mem = members(m)
-    _self_check(m, mem)
-    spec = build(m)
-    cls = _multi_class(m) if is_finite(m) else 'custom-next_dna_fn'
-    n = len(mem)
-    if n <= full_cap:
-      # --- full iteration with library-produced DNAs fed back --------------
-      try:
-        got = []
-        for d in spec.iter_dna():
-          got.append(d)
-          if len(got) > n + 3:
-            break
-      except Exception as e:  # pylint: disable=broad-except
-        rec.case(f'iter/raises/{cls}', src(m), False,
-                 f'iter_dna raised {type(e).__name__}: {e}',
-                 wit(m, 'list(spec.iter_dna())'))
-        continue
-      gs = [shape(d) for d in got]
-      if is_finite(m):
-        rec.case(f'iter/count-vs-space_size/{cls}', src(m),
-                 len(got) == spec.space_size,
-                 f'{len(got)} DNAs iterated, space_size={spec.space_size}',
-                 wit(m, 'assert len(list(spec.iter_dna())) == spec.space_size'))
-      ok = [tkey(x) for x in gs] == [tkey(x) for x in mem]
-      msg = ''
-      if not ok:
-        gk = [tkey(x) for x in gs]
-        mk_ = [tkey(x) for x in mem]
-        missing = [x for x in mem if tkey(x) not in set(gk)]
-        extra = [x for x in gs if tkey(x) not in set(mk_)]
-        msg = (f'iterated {len(gs)} vs {n} members; missing={missing[:3]!r} '
-               f'extra={extra[:3]!r}; got flat={[flat(x) for x in gs][:12]!r}')
-      rec.case(f'iter/sequence/{cls}', src(m), ok, msg, wit(
-          m, f'want = {[flat(x) for x in mem]!r}\n'
-          'got = [d.to_numbers() for d in spec.iter_dna()]\n'
-          'assert got == want, got'))
-      # ordering by the library's own comparison operators
-      bad = None
-      for i in range(len(got) - 1):
-        a, b = got[i], got[i + 1]
-        if not (a < b) or (b < a) or a == b or not (a != b):
-          bad = (i, gs[i], gs[i + 1])
-          break
-      rec.case(f'iter/strictly-increasing/{cls}', src(m), bad is None,
-               f'consecutive DNAs not strictly increasing: {bad!r}', wit(
-                   m, 'l = list(spec.iter_dna())\n'
-                   'assert all(a < b and not b < a and a != b '
-                   'for a, b in zip(l, l[1:]))'))
-      if got:
-        dup = len(set(got)) != len(got)
-        rec.case(f'iter/pairwise-different/{cls}', src(m), not dup,
-                 'hash/eq based set of iterated DNAs is smaller than the list',
-                 wit(m, 'l = list(spec.iter_dna()); assert len(set(l)) == len(l)'))
-        last_next = got[-1].next_dna() if len(got) == n else 'n/a'
-        rec.case(f'iter/last-has-no-successor/{cls}', src(m),
-                 last_next is None or last_next == 'n/a',
-                 f'next_dna(last) = {last_next!r}', wit(
-                     m, 'l = list(spec.iter_dna()); assert l[-1].next_dna() is None'))
-        unbound = [d for d in got if d.spec is None]
-        rec.case(f'iter/attached-spec/{cls}', src(m), not unbound,
-                 f'{len(unbound)} iterated DNAs have no spec attached', wit(
-                     m, 'assert all(d.spec is not None for d in spec.iter_dna())'))
-      idx = list(range(n)) if n <= 6 else sorted(set(
-          [0, n - 1] + r.sample(range(n), 2 if tier == 'quick' else 4)))
-      # iteration resumed after a given (unbound) member, exclusive
-      if 2 <= n <= (16 if tier == 'quick' else 10**9):
-        i = r.randrange(n - 1)
-        try:
-          tail = [shape(d) for d in itertools.islice(
-              spec.iter_dna(mk(mem[i])), n + 2)]
-          tail2 = [shape(d) for d in itertools.islice(
-              mk(mem[i]).use_spec(spec).iter_dna(), n + 2)]
-          ok = ([tkey(x) for x in tail] == [tkey(x) for x in mem[i + 1:]]
-                and [tkey(x) for x in tail2] == [tkey(x) for x in mem[i + 1:]])
-          msg = (f'iter_dna({mem[i]!r}) gave {[flat(x) for x in tail]!r} / '
-                 f'{[flat(x) for x in tail2]!r}, want '
-                 f'{[flat(x) for x in mem[i + 1:]]!r}')
-        except Exception as e:  # pylint: disable=broad-except
-          ok, msg = False, f'iter_dna({mem[i]!r}) raised {type(e).__name__}: {e}'
-        rec.case(f'iter/resume-after/{cls}', (src(m), i), ok, msg, wit(
-            m, f'want = {[flat(x) for x in mem[i + 1:]]!r}\n'
-            f'got = [d.to_numbers() for d in spec.iter_dna({dsrc(mem[i])})]\n'
-            f'got2 = [d.to_numbers() for d in {dsrc(mem[i])}.use_spec(spec).iter_dna()]\n'
-            'assert got == want and got2 == want, (got, got2)'))
-    else:
-      idx = sorted(set([0, 1, n - 1, n - 2] + r.sample(range(n), 8)
-                       + _boundary_indices(mem, 6, r)))
-      f = spec.first_dna()
-      rec.case(f'iter/first/{cls}', src(m), tkey(shape(f)) == tkey(mem[0]),
-               f'first_dna={shape(f)!r}, want {mem[0]!r}',
-               wit(m, f'assert spec.first_dna() == {dsrc(mem[0])}'))
-    # --- successor of freshly built (unbound) members ----------------------
-    for i in idx:
-      want = mem[i + 1] if i + 1 < n else None
-      start = mk(mem[i])
-      try:
-        nx = spec.next_dna(start, attach_spec=bool(i % 2))
-        got1 = None if nx is None else shape(nx)
-      except Exception as e:  # pylint: disable=broad-except
-        got1 = f'raised {type(e).__name__}: {e}'[:150]
-      ok = (got1 is None and want is None) or (
-          isinstance(got1, tuple) and want is not None
-          and tkey(got1) == tkey(want))
-      cid = 'next/successor' if want is not None else 'next/last-is-none'
-      rec.case(f'{cid}/{cls}', (src(m), i), ok,
-               f'next_dna({mem[i]!r}) = {got1!r}, want {want!r}', wit(
-                   m, f'nx = spec.next_dna({dsrc(mem[i])})\n' + (
-                       'assert nx is None, nx' if want is None else
-                       f'assert nx is not None and nx.to_numbers() == {flat(want)!r} '
-                       f'and nx == {dsrc(want)}, nx')))
+    _iter_checks(Cx(rec, m, r, tier), full_cap)
   return rec.result()
 
 
@@ -986,8 +1271,9 @@ def _membership_specs(tier, r):
   return specs
 
 
-def _check_accept(rec, m, spec, api, kind, tree):
+def _check_accept(cx, api, kind, tree):
   """One validate/bind probe of a (possibly corrupted) tree."""
+  rec, m, spec = cx.rec, cx.m, cx.spec
   try:
     dna = mk(tree)
   except Exception:  # pylint: disable=broad-except
@@ -997,6 +1283,8 @@ def _check_accept(rec, m, spec, api, kind, tree):
     return
   reason = why_not(m, actual)
   want = reason is None
+  if cx.pre and (api.split('-')[0], reason) in KNOWN_ACCEPTED:
+    return
   bound = None
   if api == 'validate':
     rej, text = raises(lambda: spec.validate(dna))
@@ -1017,33 +1305,117 @@ def _check_accept(rec, m, spec, api, kind, tree):
       # `spec=` with a constant root space is a separate input class: one id.
       ok = (bound is not None and bound.spec is not None) if want else (
           rej and not _last_error[0])
-      rec.case('bind-ctor[constant-root-space]/spec-honoured',
-               (src(m), actual), ok,
+      rec.case(cx.cid('bind-ctor[constant-root-space]/spec-honoured'),
+               (cx.label, actual), ok,
                f'DNA({actual!r}, spec=<constant space>): '
                + ('member left unbound (spec is None)' if want else
                   f'non-member accepted ({reason})'),
-               wit(m, (f'{call}\nassert d.spec is not None' if want else
-                       'try:\n  ' + call + '\nexcept Exception: pass\n'
-                       'else: raise AssertionError("non-member accepted")')))
+               cx.wit(f'{call}\nassert d.spec is not None' if want else
+                      'try:\n  ' + call + '\nexcept Exception: pass\n'
+                      'else: raise AssertionError("non-member accepted")'))
       return
   crash = _last_error[0]
   ok = (rej != want) and not crash
   if want:
     cid = f'{api}/accept-member/{kind if kind == "member" else "edited"}'
-    w = wit(m, f'{call}   # member: must be accepted')
+    w = cx.wit(f'{call}   # member: must be accepted')
     msg = f'member {actual!r} rejected: {text}'
   else:
     cid = f'{api}/reject/{reason}'
-    w = wit(m, 'try:\n  ' + call + '\nexcept (ValueError, TypeError): pass\n'
-            f'else: raise AssertionError("non-member accepted ({reason})")')
+    w = cx.wit('try:\n  ' + call + '\nexcept (ValueError, TypeError): pass\n'
+               f'else: raise AssertionError("non-member accepted ({reason})")')
     msg = (f'non-member {actual!r} accepted ({reason}; edit: {kind})'
            if not crash else f'non-member {actual!r} ({reason}; edit: {kind}) '
            f'is not rejected with ValueError but crashes: {crash}')
-  rec.case(cid, (src(m), actual), ok, msg, w)
+  rec.case(cx.cid(cid), (cx.label, actual), ok, msg, w)
   if want and not rej and bound is not None:
-    rec.case(f'{api}/spec-attached', (src(m), actual), bound.spec is not None,
+    rec.case(cx.cid(f'{api}/spec-attached'), (cx.label, actual),
+             bound.spec is not None,
              'DNA.spec is None after binding a member',
-             wit(m, f'{call}\nassert d.spec is not None'))
+             cx.wit(f'{call}\nassert d.spec is not None'))
+  if not want and rej and not crash and bound is dna:
+    # A refusal is final: the refused object does not count as bound, and
+    # asking again (same object, same spec) is refused again.
+    again = (
+        f'd = {dsrc(actual)}\nfor attempt in (1, 2):\n'
+        '  try: d.use_spec(spec)\n  except (ValueError, TypeError): pass\n'
+        '  else: raise AssertionError(f"non-member accepted at attempt {attempt}")\n'
+        '  assert d.spec is None, "refused DNA reports a spec"\n')
+    rec.case(cx.cid('bind/refused-dna-stays-unbound'), (cx.label, actual),
+             dna.spec is None,
+             f'use_spec refused the non-member {actual!r} ({reason}) but the '
+             f'DNA reports spec={type(dna.spec).__name__} afterwards',
+             cx.wit(again))
+    rej2, _ = raises(lambda: dna.use_spec(spec))
+    rec.case(cx.cid('bind/refusal-is-final'), (cx.label, actual), rej2,
+             f'non-member {actual!r} ({reason}): the first use_spec is '
+             f'refused, the second use_spec of the same object is accepted',
+             cx.wit(again))
+
+
+def _member_checks(cx, per_spec_members, per_spec_corrupt, n_numbers,
+                   extra=()):
+  """validate / use_spec / DNA(spec=) / from_numbers of cx.spec vs the model."""
+  rec, m, spec, r = cx.rec, cx.m, cx.spec, cx.r
+  mem = cx.mem
+  pick = mem if len(mem) <= per_spec_members else (
+      [mem[0], mem[-1]] + r.sample(mem[1:-1], per_spec_members - 2))
+  for j, t in enumerate(pick):
+    _check_accept(cx, 'validate', 'member', t)
+    _check_accept(cx, 'bind' if j % 2 else 'bind-ctor', 'member', t)
+  for j, (kind, t) in enumerate(extra):
+    _check_accept(cx, 'validate', kind, t)
+    _check_accept(cx, 'bind-ctor' if j % 3 == 2 else 'bind', kind, t)
+  # corruptions, stratified by kind
+  nmax = max([len(x[2]) for x in _all_choices(m)] or [1])
+  pool = {}
+  base = pick if len(pick) <= 4 else r.sample(pick, 4)
+  for t in base:
+    for kind, c in corruptions(t, nmax):
+      pool.setdefault(kind, []).append(c)
+  kinds = sorted(pool)
+  chosen = []
+  while len(chosen) < per_spec_corrupt and any(pool.values()):
+    for kind in kinds:
+      if pool[kind]:
+        chosen.append((kind, pool[kind].pop(r.randrange(len(pool[kind])))))
+  for j, (kind, c) in enumerate(chosen[:per_spec_corrupt]):
+    _check_accept(cx, 'validate', kind, c)
+    _check_accept(cx, 'bind' if j % 3 else 'bind-ctor', kind, c)
+  # from_numbers: flat decisions bind exactly when they spell a member
+  flats = {}
+  for t in mem:
+    flats[tuple((type(v).__name__, v) for v in flat(t))] = t
+  probes = []
+  for t in base[:2]:
+    f = flat(t)
+    probes.append(('member', f))
+    for i, v in enumerate(f):
+      if _is_int(v):
+        for kind, nv in (('negative-index', -1), ('index-plus1', v + 1),
+                         ('index-too-large', nmax), ('number-wrong-type', 'x')):
+          probes.append((kind, f[:i] + [nv] + f[i + 1:]))
+    probes.append(('too-short', f[:-1]))
+    probes.append(('too-long', f + [0]))
+  for kind, f in probes[:n_numbers]:
+    want_t = flats.get(tuple((type(v).__name__, v) for v in f))
+    box = []
+    rej, text = raises(lambda: box.append(pg.DNA.from_numbers(list(f), spec)))  # pylint: disable=cell-var-from-loop
+    crash = _last_error[0]
+    if want_t is not None:
+      ok = not rej and tkey(shape(box[0])) == tkey(want_t)
+      rec.case(cx.cid('from_numbers/accept-member'), (cx.label, tuple(f)), ok,
+               f'from_numbers({f!r}) ' + (f'raised {text}' if rej else
+                                          f'= {shape(box[0])!r}, want {want_t!r}'),
+               cx.wit(f'assert D.from_numbers({f!r}, spec) == {dsrc(want_t)}'))
+    else:
+      rec.case(cx.cid(f'from_numbers/reject/{kind}'), (cx.label, tuple(f)),
+               rej and not crash,
+               f'from_numbers({f!r}) ' + (f'crashes: {crash}' if crash else
+                                          f'accepted: {shape(box[0]) if box else None!r}'),
+               cx.wit(f'try:\n  D.from_numbers({f!r}, spec)\n'
+                      'except (ValueError, TypeError): pass\n'
+                      'else: raise AssertionError("numbers of a non-member accepted")'))
 
 
 def drv_membership(tier, seed):
@@ -1058,7 +1430,9 @@ def drv_membership(tier, seed):
              'dropped/extra/swapped/duplicated children, child under leaf, '
              'value on container), all trees with <=3 nodes over '
              '{-1,0,1,None} for tiny specs, and DNA.from_numbers on member '
-             'numbers and one-step corrupted numbers'))
+             'numbers and one-step corrupted numbers; every refused use_spec '
+             'is repeated on the same DNA object (still refused, DNA not '
+             'marked as bound)'))
   r = rng(seed, 'c11.member')
   t0 = time.time()
   budget_s = 38 if tier == 'quick' else 540
@@ -1071,74 +1445,19 @@ def drv_membership(tier, seed):
       (SP(FL(0.0, 1.0)), (0.5, ((0, ()),)), 'child-under-leaf'),
       (SP(leaf(2)), (2, ()), 'value-large'),
       (SP(leaf(2)), (0, ((0, ()),)), 'child-under-leaf'),
+      (SP(leaf(2), leaf(2)), (None, ((0, ()), (2, ()))), 'value-large'),
   ]:
-    spec = build(m)
+    cx = Cx(rec, m, r, tier)
     for api in ('validate', 'bind', 'bind-ctor'):
-      _check_accept(rec, m, spec, api, kind, t)
+      _check_accept(cx, api, kind, t)
   specs = _membership_specs(tier, r)
   per_spec_members = 6 if tier == 'quick' else 20
   per_spec_corrupt = 26 if tier == 'quick' else 120
-  for si, m in enumerate(specs):
+  for m in specs:
     if time.time() - t0 > budget_s:
       break
-    mem = members(m)
-    _self_check(m, mem)
-    spec = build(m)
-    pick = mem if len(mem) <= per_spec_members else (
-        [mem[0], mem[-1]] + r.sample(mem[1:-1], per_spec_members - 2))
-    for j, t in enumerate(pick):
-      _check_accept(rec, m, spec, 'validate', 'member', t)
-      _check_accept(rec, m, spec, 'bind' if j % 2 else 'bind-ctor', 'member', t)
-    # corruptions, stratified by kind
-    nmax = max([len(x[2]) for x in _all_choices(m)] or [1])
-    pool = {}
-    base = pick if len(pick) <= 4 else r.sample(pick, 4)
-    for t in base:
-      for kind, c in corruptions(t, nmax):
-        pool.setdefault(kind, []).append(c)
-    kinds = sorted(pool)
-    chosen = []
-    while len(chosen) < per_spec_corrupt and any(pool.values()):
-      for kind in kinds:
-        if pool[kind]:
-          chosen.append((kind, pool[kind].pop(r.randrange(len(pool[kind])))))
-    for j, (kind, c) in enumerate(chosen[:per_spec_corrupt]):
-      _check_accept(rec, m, spec, 'validate', kind, c)
-      _check_accept(rec, m, spec, 'bind' if j % 3 else 'bind-ctor', kind, c)
-    # from_numbers: flat decisions bind exactly when they spell a member
-    flats = {}
-    for t in mem:
-      flats[tuple((type(v).__name__, v) for v in flat(t))] = t
-    probes = []
-    for t in base[:2]:
-      f = flat(t)
-      probes.append(('member', f))
-      for i, v in enumerate(f):
-        if _is_int(v):
-          for kind, nv in (('negative-index', -1), ('index-plus1', v + 1),
-                           ('index-too-large', nmax), ('number-wrong-type', 'x')):
-            probes.append((kind, f[:i] + [nv] + f[i + 1:]))
-      probes.append(('too-short', f[:-1]))
-      probes.append(('too-long', f + [0]))
-    for kind, f in probes[:10 if tier == 'quick' else 30]:
-      want_t = flats.get(tuple((type(v).__name__, v) for v in f))
-      box = []
-      rej, text = raises(lambda: box.append(pg.DNA.from_numbers(list(f), spec)))
-      crash = _last_error[0]
-      if want_t is not None:
-        ok = not rej and tkey(shape(box[0])) == tkey(want_t)
-        rec.case('from_numbers/accept-member', (src(m), tuple(f)), ok,
-                 f'from_numbers({f!r}) ' + (f'raised {text}' if rej else
-                                            f'= {shape(box[0])!r}, want {want_t!r}'),
-                 wit(m, f'assert D.from_numbers({f!r}, spec) == {dsrc(want_t)}'))
-      else:
-        rec.case(f'from_numbers/reject/{kind}', (src(m), tuple(f)),
-                 rej and not crash,
-                 f'from_numbers({f!r}) ' + (f'crashes: {crash}' if crash else
-                                            f'accepted: {shape(box[0]) if box else None!r}'),
-                 wit(m, f'try:\n  D.from_numbers({f!r}, spec)\n'
-                     'except (ValueError, TypeError): pass\n'
-                     'else: raise AssertionError("numbers of a non-member accepted")'))
+    _member_checks(Cx(rec, m, r, tier), per_spec_members, per_spec_corrupt,
+                   10 if tier == 'quick' else 30)
   # all small trees against tiny specs
   tiny = [SP(leaf(2)), SP(leaf(2, 2, True, False)), SP(leaf(2), leaf(2)),
           SP(ONE([C, S2])), SP(leaf(2, 2, False, True))]
@@ -1149,10 +1468,10 @@ def drv_membership(tier, seed):
   for m in tiny:
     if time.time() - t0 > budget_s + 5:
       break
-    spec = build(m)
+    cx = Cx(rec, m, r, tier)
     for t in trees:
-      _check_accept(rec, m, spec, 'validate', 'small-tree', t)
-      _check_accept(rec, m, spec, 'bind', 'small-tree', t)
+      _check_accept(cx, 'validate', 'small-tree', t)
+      _check_accept(cx, 'bind', 'small-tree', t)
   return rec.result()
 
 
@@ -1164,6 +1483,120 @@ def _all_choices(m):
     yield m
     for c in m[2]:
       yield from _all_choices(c)
+
+
+def _random_checks(cx, draws):
+  """random_dna through every entry point returns a member."""
+  rec, m, spec, r = cx.rec, cx.m, cx.spec, cx.r
+  cls = _multi_class(m) if is_finite(m) else 'float-or-custom'
+  prev = None
+  for j in range(draws):
+    s = r.randrange(10**6)
+    mode = j % 4
+    try:
+      if mode == 0:
+        d = spec.random_dna(_random.Random(s))
+        call = f'spec.random_dna(random.Random({s}))'
+      elif mode == 1:
+        d = pg.random_dna(spec, _random.Random(s), attach_spec=False)
+        call = f'pg.random_dna(spec, random.Random({s}), attach_spec=False)'
+      elif mode == 2:
+        gen = pg.geno.Random(seed=s)
+        gen.setup(spec)
+        gen.propose()
+        d = gen.propose()
+        call = (f'(lambda a: (a.setup(spec), a.propose(), a.propose())[-1])'
+                f'(pg.geno.Random(seed={s}))')
+      else:
+        d = spec.random_dna(_random.Random(s), previous_dna=prev)
+        call = (f'spec.random_dna(random.Random({s}), previous_dna='
+                + ('None' if prev is None else
+                   f'{dsrc(shape(prev))}.use_spec(spec)') + ')')
+    except Exception as e:  # pylint: disable=broad-except
+      rec.case(cx.cid('random/raises', cls), (cx.label, s, mode), False,
+               f'{type(e).__name__}: {e}',
+               cx.wit(f'import random\n{call}'))
+      continue
+    t = shape(d)
+    ok = accepts(m, t)
+    name = ("plain", "function", "generator", "previous_dna")[mode]
+    rec.case(cx.cid(f'random/member/{name}', cls),
+             (cx.label, s, mode), ok, f'random DNA {t!r} is not a member',
+             cx.wit(f'import random\nd = {call}\nspec.validate(d)\n'
+                    f'assert d.to_numbers() != {flat(t)!r} or {ok!r}, d'))
+    if ok and not touches_custom_children(m, t):
+      rej, text = raises(lambda: spec.validate(d))  # pylint: disable=cell-var-from-loop
+      rec.case(cx.cid('random/validate-accepts-drawn', cls),
+               (cx.label, s, mode), not rej,
+               f'validate() refuses the drawn member {t!r}: {text}',
+               cx.wit(f'import random\nspec.validate({call})'))
+    if mode != 1:
+      rec.case(cx.cid('random/attached-spec', cls), (cx.label, s, mode),
+               d.spec is not None, 'random DNA has no spec attached',
+               cx.wit(f'import random\nassert {call}.spec is not None'))
+      prev = d
+    else:
+      rec.case(cx.cid('random/attach_spec=False', cls), (cx.label, s, mode),
+               d.spec is None, 'spec attached despite attach_spec=False',
+               cx.wit(f'import random\nassert {call}.spec is None'))
+
+
+def _sweep_checks(cx, recover=True):
+  """pg.geno.Sweeping proposes the member sequence."""
+  rec, m, spec, r = cx.rec, cx.m, cx.spec, cx.r
+  mem = cx.mem
+  want = [flat(t) for t in mem]
+  cls = _multi_class(m)
+  algo = pg.geno.Sweeping()
+  algo.setup(spec)
+  got = []
+  err = ''
+  try:
+    for _ in range(len(mem) + 3):
+      got.append(algo.propose())
+  except StopIteration:
+    pass
+  except Exception as e:  # pylint: disable=broad-except
+    err = f'{type(e).__name__}: {e}'
+  ok = not err and [tkey(shape(d)) for d in got] == [tkey(t) for t in mem]
+  rec.case(cx.cid('sweeping/propose-sequence', cls), cx.label, ok,
+           err or f'proposed {[flat(shape(d)) for d in got]!r}, want {want!r}',
+           cx.wit('a = pg.geno.Sweeping(); a.setup(spec)\n'
+                  f'got = [d.to_numbers() for d in a]\nassert got == {want!r}, got'))
+  algo = pg.geno.Sweeping()
+  algo.setup(spec)
+  got2 = [shape(d) for d in itertools.islice(iter(algo), len(mem) + 3)]
+  rec.case(cx.cid('sweeping/iter-sequence', cls), cx.label,
+           [tkey(t) for t in got2] == [tkey(t) for t in mem],
+           f'iterated {[flat(t) for t in got2]!r}, want {want!r}',
+           cx.wit('a = pg.geno.Sweeping(); a.setup(spec)\n'
+                  f'got = [d.to_numbers() for d in a]\nassert got == {want!r}, got'))
+  rec.case(cx.cid('sweeping/num_proposals', cls), cx.label,
+           algo.num_proposals == len(mem),
+           f'num_proposals={algo.num_proposals}, want {len(mem)}',
+           cx.wit('a = pg.geno.Sweeping(); a.setup(spec); list(a)\n'
+                  f'assert a.num_proposals == {len(mem)}, a.num_proposals'))
+  # recover from a history prefix, then continue
+  j = r.randrange(1, len(mem) + 1) if mem else 0
+  if j and recover:
+    algo = pg.geno.Sweeping()
+    algo.setup(spec)
+    algo.recover([(mk(t).use_spec(spec), None) for t in mem[:j]])
+    try:
+      nx = shape(algo.propose())
+    except StopIteration:
+      nx = None
+    wantn = mem[j] if j < len(mem) else None
+    ok = (nx is None and wantn is None) or (
+        nx is not None and wantn is not None and tkey(nx) == tkey(wantn))
+    hist = '[' + ', '.join(f'({dsrc(t)}.use_spec(spec), None)'
+                           for t in mem[:j]) + ']'
+    rec.case(cx.cid('sweeping/recover-then-propose', cls), (cx.label, j), ok,
+             f'after recovering {j} proposals propose() gave {nx!r}, want {wantn!r}',
+             cx.wit(f'a = pg.geno.Sweeping(); a.setup(spec); a.recover({hist})\n'
+                    'try: nx = a.propose().to_numbers()\n'
+                    'except StopIteration: nx = None\n'
+                    f'assert nx == {None if wantn is None else flat(wantn)!r}, nx'))
 
 
 def drv_random_and_sweeping(tier, seed):
@@ -1183,119 +1616,239 @@ def drv_random_and_sweeping(tier, seed):
   if tier != 'quick':
     specs += conditional_family([2, 3], [1, 2, 3], [C, S2, SM, S22, SN, SF],
                                 10**9, r, 120)
-  for si, m in enumerate(specs):
+  for m in specs:
     if time.time() - t0 > budget_s * 0.6:
       break
-    spec = build(m)
-    cls = _multi_class(m) if is_finite(m) else 'float-or-custom'
-    prev = None
-    for j in range(draws):
-      s = r.randrange(10**6)
-      mode = j % 4
-      try:
-        if mode == 0:
-          d = spec.random_dna(_random.Random(s))
-          call = f'spec.random_dna(random.Random({s}))'
-        elif mode == 1:
-          d = pg.random_dna(spec, _random.Random(s), attach_spec=False)
-          call = f'pg.random_dna(spec, random.Random({s}), attach_spec=False)'
-        elif mode == 2:
-          gen = pg.geno.Random(seed=s)
-          gen.setup(spec)
-          gen.propose()
-          d = gen.propose()
-          call = (f'(lambda a: (a.setup(spec), a.propose(), a.propose())[-1])'
-                  f'(pg.geno.Random(seed={s}))')
-        else:
-          d = spec.random_dna(_random.Random(s), previous_dna=prev)
-          call = (f'spec.random_dna(random.Random({s}), previous_dna='
-                  + ('None' if prev is None else
-                     f'{dsrc(shape(prev))}.use_spec(spec)') + ')')
-      except Exception as e:  # pylint: disable=broad-except
-        rec.case(f'random/raises/{cls}', (src(m), s, mode), False,
-                 f'{type(e).__name__}: {e}',
-                 wit(m, f'import random\n{call}'))
-        continue
-      t = shape(d)
-      ok = accepts(m, t)
-      rec.case(f'random/member/{("plain", "function", "generator", "previous_dna")[mode]}/{cls}',
-               (src(m), s, mode), ok, f'random DNA {t!r} is not a member',
-               wit(m, f'import random\nd = {call}\nspec.validate(d)\n'
-                   f'assert d.to_numbers() != {flat(t)!r} or {ok!r}, d'))
-      if mode != 1:
-        rec.case(f'random/attached-spec/{cls}', (src(m), s, mode),
-                 d.spec is not None, 'random DNA has no spec attached',
-                 wit(m, f'import random\nassert {call}.spec is not None'))
-        prev = d
-      else:
-        rec.case(f'random/attach_spec=False/{cls}', (src(m), s, mode),
-                 d.spec is None, 'spec attached despite attach_spec=False',
-                 wit(m, f'import random\nassert {call}.spec is None'))
+    _random_checks(Cx(rec, m, r, tier), draws)
   # ---------------- sweeping ---------------------------------------------
   sweep = [m for m in leaf_family(3, 3) + handpicked_roots()
            if is_finite(m) and count_members(m) <= (12 if tier == 'quick' else 36)]
   for m in sweep:
     if time.time() - t0 > budget_s:
       break
-    mem = members(m)
-    want = [flat(t) for t in mem]
-    spec = build(m)
-    cls = _multi_class(m)
-    algo = pg.geno.Sweeping()
-    algo.setup(spec)
-    got = []
-    err = ''
-    try:
-      for _ in range(len(mem) + 3):
-        got.append(algo.propose())
-    except StopIteration:
-      pass
-    except Exception as e:  # pylint: disable=broad-except
-      err = f'{type(e).__name__}: {e}'
-    ok = not err and [tkey(shape(d)) for d in got] == [tkey(t) for t in mem]
-    rec.case(f'sweeping/propose-sequence/{cls}', src(m), ok,
-             err or f'proposed {[flat(shape(d)) for d in got]!r}, want {want!r}',
-             wit(m, 'a = pg.geno.Sweeping(); a.setup(spec)\n'
-                 f'got = [d.to_numbers() for d in a]\nassert got == {want!r}, got'))
-    algo = pg.geno.Sweeping()
-    algo.setup(spec)
-    got2 = [shape(d) for d in itertools.islice(iter(algo), len(mem) + 3)]
-    rec.case(f'sweeping/iter-sequence/{cls}', src(m),
-             [tkey(t) for t in got2] == [tkey(t) for t in mem],
-             f'iterated {[flat(t) for t in got2]!r}, want {want!r}',
-             wit(m, 'a = pg.geno.Sweeping(); a.setup(spec)\n'
-                 f'got = [d.to_numbers() for d in a]\nassert got == {want!r}, got'))
-    rec.case(f'sweeping/num_proposals/{cls}', src(m),
-             algo.num_proposals == len(mem),
-             f'num_proposals={algo.num_proposals}, want {len(mem)}',
-             wit(m, 'a = pg.geno.Sweeping(); a.setup(spec); list(a)\n'
-                 f'assert a.num_proposals == {len(mem)}, a.num_proposals'))
-    # recover from a history prefix, then continue
-    j = r.randrange(1, len(mem) + 1) if mem else 0
-    if j:
-      algo = pg.geno.Sweeping()
-      algo.setup(spec)
-      algo.recover([(mk(t).use_spec(spec), None) for t in mem[:j]])
+    _sweep_checks(Cx(rec, m, r, tier))
+  return rec.result()
+
+
+def drv_single_point_subspaces(tier, seed):
+  """Candidates that are non-empty sub-spaces with exactly one point."""
+  rec = Recorder(
+      PROP, 'conditional sub-spaces of size 1 that still hold decision points',
+      scope=('19 hand-picked specs + seeded conditional choices (n=2, k<=2 '
+             '(thorough n<=3, k<=3), every distinct/sorted) whose candidates '
+             'are drawn from {constant, oneof([c]), manyof(2,[c,c],sorted), '
+             'manyof(2,[c],distinct=False), space of two forced elements, '
+             'forced nested choice, manyof(3 of 3, sorted), a 2-point space}: '
+             'reported size of every node, full iteration, validate/bind of '
+             'members and one-step corruptions, from_numbers, random draws, '
+             'sweeping'))
+  r = rng(seed, 'c11.single')
+  specs = single_point_roots()
+  menu = [C, S2] + SINGLE_POINT
+  if tier == 'quick':
+    specs += conditional_family([2], [1, 2], menu, 30, r, 12)
+  else:
+    specs += conditional_family([2], [1, 2, 3], menu, 200)
+    specs += conditional_family([3], [1, 2, 3], menu, 200, r, 150)
+  quick = tier == 'quick'
+  for m in specs:
+    cx = Cx(rec, m, r, tier)
+    _size_checks(cx)
+    _iter_checks(cx, 40 if quick else 260, light=quick)
+    _member_checks(cx, 4 if quick else 12, 12 if quick else 60,
+                   6 if quick else 20)
+    _random_checks(cx, 4 if quick else 16)
+    if len(cx.mem) <= (12 if quick else 36):
+      _sweep_checks(cx, recover=not quick)
+  return rec.result()
+
+
+def _edit_bases(tier, r):
+  """Finite specs small enough to be re-enumerated after every edit."""
+  l2 = leaf(2)
+  bases = [
+      SP(l2, leaf(3, 2, True, True)),
+      SP(ONE([C, S2]), l2),
+      SP(leaf(3, 2, False, False)),
+      leaf(3, 2, True, False),
+      SP(ONE([S1M, C, S2])),
+      SP(CH(2, [S2, C, S1], True, True)),
+      ONE([S22, SM]),
+      SP(),
+      SP(ONE([SP(ONE([C, S2])), C]), l2),
+      SP(l2, l2, l2),
+      SP(CH(2, [SM, S2], False, True)),
+      SP(ONE([S11, SN])),
+  ]
+  extra = [m for m in handpicked_roots() + single_point_roots()
+           + leaf_family(3, 3) if m not in bases and count_members(m) <= 30]
+  return bases + r.sample(extra, 8 if tier == 'quick' else len(extra))
+
+
+def drv_edited_specs(tier, seed):
+  """The statement holds for a spec object after it was used and edited."""
+  quick = tier == 'quick'
+  steps = 3 if quick else 6
+  cap = 30 if quick else 80
+  rec = Recorder(
+      PROP, 'a specification edited in place is again an exact specification',
+      scope=(f'{20 if quick else "all"} finite base specs (<=30 members), '
+             f'each taken through a seeded chain of {steps} in-place edits '
+             '(edit kinds taken round-robin: num_choices / distinct / sorted / '
+             'several flags at once; append, insert, remove, replace a '
+             'candidate sub-space; append, insert, remove, replace an element '
+             'of the root or of a candidate space; at every depth; performed '
+             'on the node itself or through root.rebind; result <= '
+             f'{cap} members); the object is used before every edit (sizes of '
+             'all nodes, iteration, validation, random draw); after every '
+             'edit: reported size of every node, full iteration, '
+             'validate/bind of members, of members of the previous spec that '
+             'are no longer members and of one-step corruptions, '
+             'from_numbers, random draws, sweeping'))
+  r = rng(seed, 'c11.edit')
+  counter = 0
+  used = {}
+  for m0 in _edit_bases(tier, r):
+    env = {}
+    exec(PRELUDE_SHORT + WARM, env)  # pylint: disable=exec-used
+    setup = PRELUDE_SHORT + WARM + f'spec = {src(m0)}\n'
+    env['spec'] = build(m0)
+    m = m0
+    for _ in range(steps):
+      by_kind = {}
+      for kind, new, stmts in model_edits(m):
+        if count_members(new) <= cap and weight(new) <= 12:
+          by_kind.setdefault(kind, []).append((new, stmts))
+      if not by_kind:
+        break
+      # edit kinds in a global round-robin (next available kind in order)
+      kind = next(EDIT_KINDS[(counter + i) % len(EDIT_KINDS)]
+                  for i in range(len(EDIT_KINDS))
+                  if EDIT_KINDS[(counter + i) % len(EDIT_KINDS)] in by_kind)
+      counter += 1
+      new, stmts = r.choice(by_kind[kind])
+      used[kind] = used.get(kind, 0) + 1
+      stmt = stmts[used[kind] % len(stmts)]
       try:
-        nx = shape(algo.propose())
-      except StopIteration:
-        nx = None
-      wantn = mem[j] if j < len(mem) else None
-      ok = (nx is None and wantn is None) or (
-          nx is not None and wantn is not None and tkey(nx) == tkey(wantn))
-      hist = '[' + ', '.join(f'({dsrc(t)}.use_spec(spec), None)'
-                             for t in mem[:j]) + ']'
-      rec.case(f'sweeping/recover-then-propose/{cls}', (src(m), j), ok,
-               f'after recovering {j} proposals propose() gave {nx!r}, want {wantn!r}',
-               wit(m, f'a = pg.geno.Sweeping(); a.setup(spec); a.recover({hist})\n'
-                   'try: nx = a.propose().to_numbers()\n'
-                   'except StopIteration: nx = None\n'
-                   f'assert nx == {None if wantn is None else flat(wantn)!r}, nx'))
+        exec('_use(spec)\n' + stmt, env)  # pylint: disable=exec-used
+      except Exception as e:  # pylint: disable=broad-except
+        if os.environ.get('C11_DEBUG'):
+          print('EDIT-REFUSED', setup[len(PRELUDE_SHORT) + len(WARM):], stmt,
+                type(e).__name__, str(e)[:200])
+        # The edit itself was refused or the prior use failed: no edited
+        # specification exists (not this property's business); start afresh.
+        env['spec'] = build(m)
+        setup = PRELUDE_SHORT + WARM + f'spec = {src(m)}\n'
+        continue
+      setup += f'_use(spec); {stmt}\n'
+      old_mem = members(m)
+      m = new
+      cx = Cx(rec, m, r, tier, spec=env['spec'], setup=setup,
+              label=setup[len(PRELUDE_SHORT) + len(WARM):],
+              pre=f'edited[{EDIT_GROUP[kind]}]')
+      new_keys = set(tkey(t) for t in cx.mem)
+      stale = [t for t in old_mem if tkey(t) not in new_keys]
+      stale = stale if len(stale) <= 4 else r.sample(stale, 4)
+      _size_checks(cx)
+      _iter_checks(cx, cap, light=True)
+      _member_checks(cx, 4, 8 if quick else 30, 4 if quick else 12,
+                     extra=[('member-before-the-edit', t) for t in stale])
+      _random_checks(cx, 4)
+      if len(cx.mem) <= (10 if quick else 36):
+        _sweep_checks(cx, recover=not quick)
+  return rec.result()
+
+
+def _bind_sequence_specs():
+  l2, l3 = leaf(2), leaf(3)
+  return [SP(l2, l2), SP(l2, l3), SP(l3, l2, l2), leaf(2, 2, False, False),
+          leaf(3, 2, True, True), leaf(3, 2, True, False), l3,
+          SP(ONE([C, S2]), l2), SP(ONE([S22, C])), ONE([S2, S1M, C]),
+          SP(l2, leaf(3, 2, True, True)), SP(leaf(3, 2, False, True))]
+
+
+def drv_bind_sequences(tier, seed):
+  """Binding decides by membership alone, whatever happened to the DNA before."""
+  rec = Recorder(
+      PROP, 'use_spec accepts exactly the members at every attempt',
+      scope=('12 small specs (multi-element roots, bare multi-choices, '
+             'conditional, single-element roots); every ordered pair (A, B) '
+             '(quick: every (A, A) and 40 seeded pairs) and <=8 trees per pair '
+             'taken from the members of A, the members of B and one-step '
+             'corruptions of them: the same DNA object is passed to use_spec '
+             'of A, A, B, B, A, A; each attempt must be accepted iff the tree '
+             'is a member of that spec (classified by what the previous '
+             'attempt was), and a DNA that was never accepted reports no spec'))
+  r = rng(seed, 'c11.bindseq')
+  specs = _bind_sequence_specs()
+  built = [build(m) for m in specs]
+  mems = [members(m) for m in specs]
+  pairs = [(a, b) for a in range(len(specs)) for b in range(len(specs))]
+  if tier == 'quick':
+    pairs = [(a, a) for a in range(len(specs))] + r.sample(
+        [p for p in pairs if p[0] != p[1]], 40)
+  for a, b in pairs:
+    ma, mb = specs[a], specs[b]
+    trees = {}
+    pool = mems[a] + (mems[b] if a != b else [])
+    for t in pool:
+      trees.setdefault(tkey(t), t)
+    good = list(trees.values())
+    good = good if len(good) <= 5 else r.sample(good, 5)
+    bad = []
+    for t in good[:2]:
+      cs = [c for _, c in corruptions(t, 3)
+            if not accepts(ma, c) and not accepts(mb, c)
+            and why_not(ma, c) != 'float-with-children']
+      bad += r.sample(cs, min(2, len(cs)))
+    pre = (PRELUDE_SHORT + f'A = {src(ma)}\nB = {src(mb)}\n')
+    for t in good + bad[:3]:
+      try:
+        d = mk(t)
+      except Exception:  # pylint: disable=broad-except
+        continue
+      t = shape(d)
+      accepted_once = False
+      lines = f'd = {dsrc(t)}\n'
+      last = None          # (which, refused?) of the previous attempt
+      for which in ('AABBAA' if a != b else 'AAA'):
+        if last is None:
+          prev = 'first-attempt'
+        else:
+          prev = ('after-refused-by-' if last[1] else 'after-accepted-by-') + (
+              'the-same-spec' if last[0] == which else 'another-spec')
+        m, spec = (ma, built[a]) if which == 'A' else (mb, built[b])
+        want = accepts(m, t)
+        rej, text = raises(lambda: d.use_spec(spec))  # pylint: disable=cell-var-from-loop
+        crash = _last_error[0]
+        ok = (rej != want) and not crash
+        if want:
+          cid = f'bind-sequence/accept-member/{prev}'
+          ok = ok and d.spec is not None
+          lines += f'd.use_spec({which}); assert d.spec is not None\n'
+          msg = (f'member {t!r} of {which} refused ({text}) or left unbound; '
+                 f'{prev}')
+        else:
+          cid = f'bind-sequence/reject-non-member/{prev}'
+          lines += (f'try: d.use_spec({which})\n'
+                    'except (ValueError, TypeError): pass\n'
+                    f'else: raise AssertionError("non-member of {which} accepted")\n')
+          msg = (f'non-member {t!r} of {which} accepted'
+                 + (f' / crashed: {crash}' if crash else '') + f'; {prev}')
+        rec.case(cid, (src(ma), src(mb), t, len(lines)), ok, msg, pre + lines)
+        accepted_once = accepted_once or not rej
+        if not accepted_once:
+          rec.case('bind-sequence/never-accepted-reports-no-spec',
+                   (src(ma), src(mb), t, len(lines)), d.spec is None,
+                   f'{t!r} was refused by every attempt so far but reports a '
+                   f'spec ({prev})', pre + lines + 'assert d.spec is None')
+        last = (which, rej)
   return rec.result()
 
 
 DRIVERS = [drv_space_size, drv_iteration, drv_membership,
-           drv_random_and_sweeping]
+           drv_random_and_sweeping, drv_single_point_subspaces,
+           drv_edited_specs, drv_bind_sequences]
 
 
 def replay(rec):
